@@ -60,6 +60,10 @@ def stream(src, k, bad, b, mode, slurp, vals):
     worst = max(s for s, _, _ in singles)
     if status != worst:
         return False, f"celpy {' '.join(base)} on {docs}: status {status}, but the documents alone give {[s for s, _, _ in singles]}"
+    if b and k == 1 and not bad[0] and len(out) == 1 and out[0] in ("true", "false"):
+        want = 0 if out[0] == "true" else 1
+        if status != want:
+            return False, f"celpy {' '.join(base)} on {docs}: result {out[0]} under -b must give status {want}, got {status}"
     if any(bad) and status != 3:
         return False, f"celpy {' '.join(base)} on {docs}: malformed JSON must give status 3, got {status}"
     flat = [line for _, o, _ in singles for line in o]
